@@ -70,7 +70,7 @@ static bool crosses_ray(Pt q, Pt a, Pt b) {     // does the ray from q towards +
 
 // ================================================================================================
 // lattices: every point pair is a segment id
-static const int MAXP = 81;
+static const int MAXP = 144;
 struct Lattice {
     int w = 0, h = 0, n = 0, nseg = 0;
     std::vector<Pt> p;
@@ -88,7 +88,7 @@ struct Lattice {
         for (int s = 0; s < nseg; ++s) for (int t = 0; t < nseg; ++t) if (s != t) rel[s][t] = seg_rel(p[sa[s]], p[sb[s]], p[sa[t]], p[sb[t]]);
     }
 };
-static Lattice LAT[3];   // 0: 3x3, 1: 4x3, 2: 9x9 (no pair table: relations computed on demand)
+static Lattice LAT[4];   // 0: 3x3, 1: 4x3, 2: 9x9, 3: 11x13 (2, 3: no pair table, relations computed on demand)
 
 struct Img { long long sx, tx, sy, ty; bool in_domain; const char* name; };
 static const Img IMG[4] = {
@@ -123,7 +123,8 @@ static size_t write_spec(const Case& c, char* buf) {
         for (size_t j = 0; j < c.ways[i].size(); ++j) {
             if (j) *q++ = '.';
             const int v = c.ways[i][j];
-            if (v >= 10) *q++ = static_cast<char>('0' + v / 10);
+            if (v >= 100) *q++ = static_cast<char>('0' + v / 100);
+            if (v >= 10) *q++ = static_cast<char>('0' + v / 10 % 10);
             *q++ = static_cast<char>('0' + v % 10);
         }
     }
@@ -136,7 +137,7 @@ static bool parse_spec(const std::string& s, Case& c) {
     if (s.size() < 18 || s.compare(0, 2, "c:") != 0) return false;
     c.lat = s[3] - '0'; c.img = s[5] - '0'; c.way_mode = s[7] == 'w'; c.empty_areas = s[9] == '1'; c.check_roles = s[11] == '1';
     c.reporter = s[13] == '1'; c.ids = s[15] - '0';
-    if (c.lat < 0 || c.lat > 2 || c.img < 0 || c.img > 3) return false;
+    if (c.lat < 0 || c.lat > 3 || c.img < 0 || c.img > 3) return false;
     size_t r0 = 17, r1 = s.find(':', r0);
     if (r1 == std::string::npos) return false;
     c.roles = s.substr(r0, r1 - r0);
@@ -293,7 +294,7 @@ struct Cls {
 };
 
 static Cls classify(const Lattice& L, const Ways& ways) {
-    static Cls memo[3];   // the realisations of one arrangement follow each other: keep the last classification per lattice
+    static Cls memo[4];   // the realisations of one arrangement follow each other: keep the last classification per lattice
     Cls k;
     k.mult.assign(static_cast<size_t>(L.nseg), 0);
     for (const auto& w : ways)
@@ -947,17 +948,15 @@ static void part_C(const Args& a, int maxtotal, int level_valid, int level_inval
 // D: nested and touching rings. A catalogue of closed rings on the 9x9 lattice (squares inside each other, diamonds touching
 // them in lattice points, rings sharing edges, rings crossing in shared nodes); every subset of the catalogue is one input:
 // the multiset union of the rings' unit segments (shared edges occur twice and cancel, as the property demands).
-static void part_D(const Args& a, int nrings, int max_touch, int level_valid, int level_invalid) {
+using P2 = std::pair<int, int>;
+static std::vector<P2> sq(int x0, int y0, int x1, int y1) { return std::vector<P2>{{x0, y0}, {x1, y0}, {x1, y1}, {x0, y1}}; }
+static std::vector<P2> dia(int cx, int cy, int r) { return std::vector<P2>{{cx, cy - r}, {cx + r, cy}, {cx, cy + r}, {cx - r, cy}}; }
+
+// every subset of the first nrings rings of a catalogue on lattice `lat` is one input
+static void run_catalogue(const Args& a, const char* fam, int lat, const std::vector<std::vector<P2>>& corners, int nrings, int max_touch, int level_valid, int level_invalid, const std::string& what) {
     g_max_touch = max_touch;
-    const Lattice& L = LAT[2];
-    using P2 = std::pair<int, int>;
-    auto sq = [](int x0, int y0, int x1, int y1) { return std::vector<P2>{{x0, y0}, {x1, y0}, {x1, y1}, {x0, y1}}; };
-    auto dia = [](int cx, int cy, int r) { return std::vector<P2>{{cx, cy - r}, {cx + r, cy}, {cx, cy + r}, {cx - r, cy}}; };
-    const std::vector<std::vector<P2>> corners = {
-        sq(0, 0, 8, 8), sq(1, 1, 7, 7), sq(2, 2, 6, 6), sq(3, 3, 5, 5),        // strictly nested: outer, hole, island, hole in the island
-        sq(3, 5, 5, 7), sq(1, 1, 7, 4), sq(2, 2, 4, 3),                        // hole above a hole that holds an island (ray passes a foreign outer ring twice)
-        dia(4, 4, 1), dia(4, 4, 2), sq(0, 0, 4, 4),                            // touching in lattice points, edge sharing
-        sq(4, 4, 8, 8), dia(4, 4, 4), sq(1, 1, 2, 2), sq(3, 1, 5, 2), {{0, 0}, {2, 0}, {0, 2}}, sq(0, 5, 2, 7)};
+    const Lattice& L = LAT[lat];
+    nrings = std::min<int>(nrings, static_cast<int>(corners.size()));
     std::vector<std::vector<int>> ring_segs;   // unit steps along every edge (axis-parallel or diagonal)
     for (const auto& c : corners) {
         std::vector<int> segs;
@@ -975,10 +974,32 @@ static void part_D(const Args& a, int nrings, int max_touch, int level_valid, in
             std::vector<int> M;
             for (int i = 0; i < nrings; ++i) if (r >> i & 1) M.insert(M.end(), ring_segs[static_cast<size_t>(i)].begin(), ring_segs[static_cast<size_t>(i)].end());
             std::sort(M.begin(), M.end());
-            explore(2, M, level_valid, level_invalid, r, a.seed);
+            explore(lat, M, level_valid, level_invalid, r, a.seed);
         }
-    }, [&](uint64_t r, const std::string& what, const std::string& err) { on_death("D", r, what, err); }, iso);
-    benum::bound("D: every subset of the first " + std::to_string(nrings) + " rings of the nested/touching ring catalogue on the 9x9 lattice (2^" + std::to_string(nrings) + " inputs) with <= " + std::to_string(max_touch) + " touching points", done);
+    }, [&](uint64_t r, const std::string& what2, const std::string& err) { on_death(fam, r, what2, err); }, iso);
+    benum::bound(std::string(fam) + ": every subset of the first " + std::to_string(nrings) + " rings of " + what + " (2^" + std::to_string(nrings) + " inputs) with <= " + std::to_string(max_touch) + " touching points", done);
+}
+
+static void part_D(const Args& a, int nrings, int max_touch, int level_valid, int level_invalid) {
+    const std::vector<std::vector<P2>> corners = {
+        sq(0, 0, 8, 8), sq(1, 1, 7, 7), sq(2, 2, 6, 6), sq(3, 3, 5, 5),        // strictly nested: outer, hole, island, hole in the island
+        sq(3, 5, 5, 7), sq(1, 1, 7, 4), sq(2, 2, 4, 3),                        // hole above a hole that holds an island (ray passes a foreign outer ring twice)
+        dia(4, 4, 1), dia(4, 4, 2), sq(0, 0, 4, 4),                            // touching in lattice points, edge sharing
+        sq(4, 4, 8, 8), dia(4, 4, 4), sq(1, 1, 2, 2), sq(3, 1, 5, 2), {{0, 0}, {2, 0}, {0, 2}}, sq(0, 5, 2, 7)};
+    run_catalogue(a, "D", 2, corners, nrings, max_touch, level_valid, level_invalid, "the nested/touching ring catalogue on the 9x9 lattice");
+}
+
+// E: deep nesting. A tower of five strictly nested squares (outer, hole, island, hole, island) with rings above it, beside it and
+// inside it, so that the vertical line below the start of an inner ring crosses several nested outer rings that do NOT enclose it
+// (the stack of candidate outer rings in find_enclosing_ring() holds nested pairs "X Y Y X" that must cancel from the inside out).
+static void part_E(const Args& a, int nrings, int max_touch, int level_valid, int level_invalid) {
+    const std::vector<std::vector<P2>> corners = {
+        sq(0, 0, 10, 12), sq(1, 1, 9, 9), sq(2, 2, 8, 8), sq(3, 3, 7, 7), sq(4, 4, 6, 6),   // C > H > Q > H2 > P
+        sq(4, 10, 6, 11), sq(5, 10, 8, 11), sq(2, 10, 3, 11),                              // holes of C above the tower: over P's left edge, over P, over Q only
+        dia(5, 5, 1),                                                                      // touches P from the inside in four nodes
+        sq(1, 10, 9, 12),                                                                  // shares part of C's top edge, encloses the rings above the tower
+        sq(7, 1, 9, 2), sq(0, 0, 1, 1)};                                                   // edge sharing with H / corner sharing with C and H
+    run_catalogue(a, "E", 3, corners, nrings, max_touch, level_valid, level_invalid, "the deep-nesting tower catalogue on the 11x13 lattice");
 }
 
 // ================================================================================================
@@ -1008,7 +1029,7 @@ static void replay(const Args& a, const std::string& spec) {
 
 int main(int argc, char** argv) {
     Args a = benum::parse_args(argc, argv);
-    LAT[0].init(3, 3, true); LAT[1].init(4, 3, true); LAT[2].init(9, 9, false);
+    LAT[0].init(3, 3, true); LAT[1].init(4, 3, true); LAT[2].init(9, 9, false); LAT[3].init(11, 13, false);
     g_cur = static_cast<Cur*>(mmap(nullptr, sizeof(Cur), PROT_READ | PROT_WRITE, MAP_SHARED | MAP_ANONYMOUS, -1, 0));
     g_cur->spec[0] = 0;
     c_eval = &C["evaluations"];
@@ -1024,6 +1045,7 @@ int main(int argc, char** argv) {
     else if (part == "B") part_B(a, lv, li);
     else if (part == "C") part_C(a, num("--total", 5), lv, li);
     else if (part == "D") part_D(a, num("--rings", 10), num("--maxtouch", 8), lv, li);
+    else if (part == "E") part_E(a, num("--rings", 10), num("--maxtouch", 8), lv, li);
     else { fprintf(stderr, "unknown part\n"); return 2; }
     C.emit();
     return 0;
